@@ -1,7 +1,555 @@
-//! C35 — not implemented yet (see DESIGN.md section 4).
-use kit::Run;
-use serde_json::Value;
+//! C35 — results do not depend on stream chunking, and I/O errors are never hidden.
+//! S-env on `Builder::sign`, `Reader::with_stream` and `Builder::add_ingredient_from_stream` through the fault
+//! streams of `kit::streams` (every read / write / seek / flush of the SDK on the stream is a numbered choice point).
+//!
+//!  * zero deviations: a uniform maximum transfer size n in {1,2,3,7,64} on every stream;
+//!  * deviation bound 1: at the k-th call, for EVERY k of the undisturbed run, a 1-byte short transfer, or an I/O
+//!    error that sticks (every later call fails too);
+//!  * deviation bound 2 (thorough, the two smallest formats): every pair, the second choice point taken from the
+//!    run that already contains the first deviation (runs go to completion; call numbers are those of the run).
+//!
+//! Oracle (DESIGN.md C35, from the property text):
+//!  * no failure injected (chunking, short transfers) => Ok with the same canonical report / validity as the unchunked run;
+//!  * sticky failure => never a panic; `Ok` is a violation when (a) a byte that matters was never delivered, or (b) the
+//!    result differs from the undisturbed one — in particular `Ok(Invalid)` = "I/O error hidden as a validation failure";
+//!    `Ok` with the undisturbed result after complete delivery is accepted (no verdict demanded);
+//!  * `sign` returning Ok after a failure must have produced an output that a clean reader accepts as the undisturbed one.
+//! "Bytes that matter" for a signed asset = positions whose single-byte alteration makes a clean read not Valid
+//! (computed exhaustively with plain cursors, on demand); for the source of `sign` = every byte.
+//!
+//! Mutants caught (tools/mutant_run.sh G <diff> C35 quick):
+//!   C35-read-exact-to-read.diff   a handler helper uses `read` where it needs `read_exact`  -> VIOLATION (short-transfer/chunking changes result)
+//!   C35-swallow-write-error.diff  an output write error is ignored                            -> VIOLATION (ok-despite… / sign-ok-but-output-differs)
 
-pub fn run(_run: &Run, _replay: Option<&Value>) {
-    kit::ev::machinery("C35: check not implemented");
+use c2pa::{Builder, Reader};
+use kit::{
+    assets::{self, Asset},
+    canon, gutil, par, sdk,
+    streams::{Dev, FaultStream, Kind, Log, Plan},
+    Run,
+};
+use serde_json::{json, Value};
+use std::{
+    collections::BTreeSet,
+    sync::{Mutex, OnceLock},
+};
+
+const DEF: &str = r#"{"title":"t","claim_generator_info":[{"name":"kit","version":"1"}]}"#;
+const ING: &str = r#"{"title":"i","relationship":"componentOf"}"#;
+const CHUNKS: [usize; 5] = [1, 2, 3, 7, 64];
+static LIM: gutil::Limiter = gutil::Limiter::new(2);
+
+#[derive(Clone, Debug, PartialEq, Eq, PartialOrd, Ord)]
+struct D {
+    /// 0 = the (source) stream, 1 = the destination stream of sign
+    stream: usize,
+    k: u64,
+    dev: String,
+}
+
+impl D {
+    fn dev(&self) -> Dev {
+        Dev::parse(&self.dev).unwrap_or(Dev::FailSticky)
+    }
+    fn is_fail(&self) -> bool {
+        self.dev.starts_with("fail")
+    }
+}
+
+#[derive(Clone, Debug, Default)]
+struct Script {
+    chunk: Option<usize>,
+    devs: Vec<D>,
+}
+
+impl Script {
+    fn plan(&self, stream: usize) -> Plan {
+        Plan { max_xfer: self.chunk, devs: self.devs.iter().filter(|d| d.stream == stream).map(|d| (d.k, d.dev())).collect() }
+    }
+    fn has_fail(&self) -> bool {
+        self.devs.iter().any(|d| d.is_fail())
+    }
+    fn json(&self) -> Value {
+        json!({"chunk": self.chunk, "devs": self.devs.iter().map(|d| json!([d.stream, d.k, d.dev])).collect::<Vec<_>>()})
+    }
+    fn from_json(v: &Value) -> Script {
+        Script {
+            chunk: v["chunk"].as_u64().map(|n| n as usize),
+            devs: v["devs"].as_array().map(|a| a.iter().map(|d| D { stream: d[0].as_u64().unwrap_or(0) as usize, k: d[1].as_u64().unwrap_or(0), dev: d[2].as_str().unwrap_or("fail-sticky").to_string() }).collect()).unwrap_or_default(),
+        }
+    }
+    fn describe(&self) -> String {
+        let mut s = self.chunk.map(|n| format!("max-transfer {n}")).unwrap_or_default();
+        for d in &self.devs {
+            s.push_str(&format!(" {}@{}#{}", d.dev, if d.stream == 0 { "src" } else { "dst" }, d.k));
+        }
+        s.trim().to_string()
+    }
+}
+
+#[derive(Clone, Copy, PartialEq, Eq, Debug)]
+enum OpKind {
+    Sign,
+    Read,
+    ReadDetect,
+    Ingredient,
+}
+
+impl OpKind {
+    fn name(&self) -> &'static str {
+        match self {
+            OpKind::Sign => "sign",
+            OpKind::Read => "read",
+            OpKind::ReadDetect => "read-detect",
+            OpKind::Ingredient => "ingredient",
+        }
+    }
+}
+
+struct Op {
+    kind: OpKind,
+    asset: Asset,
+    /// signed form of the asset (input of read / ingredient)
+    signed: Vec<u8>,
+    /// positions of `signed` whose alteration makes a clean read not Valid (lazily computed)
+    matter: std::sync::Arc<OnceLock<Vec<usize>>>,
+}
+
+impl Op {
+    fn name(&self) -> String {
+        format!("{}/{}", self.kind.name(), self.asset.name)
+    }
+    fn streams(&self) -> usize {
+        if self.kind == OpKind::Sign { 2 } else { 1 }
+    }
+    fn matter(&self) -> &Vec<usize> {
+        self.matter.get_or_init(|| {
+            let out: Mutex<Vec<usize>> = Mutex::new(vec![]);
+            par::for_each_index(self.signed.len() as u64, |p| {
+                let mut b = self.signed.clone();
+                b[p as usize] ^= 0xFF;
+                let valid = par::guard(|| matches!(sdk::read(sdk::ctx(), self.asset.mime, &b), Ok(r) if sdk::state_name(r.validation_state()) != "Invalid")).unwrap_or(false);
+                if !valid {
+                    out.lock().unwrap().push(p as usize);
+                }
+            });
+            let mut v = out.into_inner().unwrap();
+            v.sort();
+            v
+        })
+    }
+}
+
+#[derive(Clone, Debug)]
+struct Obs {
+    /// "Ok" | "Err(kind)" | "PANIC"
+    class: String,
+    /// Ok: canonical result; Err: error text; PANIC: message
+    detail: String,
+    /// Valid / Invalid / - (sign: state of the clean read-back of the output)
+    state: String,
+    /// failure codes of the result (Ok only)
+    codes: Vec<String>,
+    logs: Vec<Log>,
+    out_len: usize,
+}
+
+fn signer() -> &'static (dyn c2pa::Signer + Send + Sync) {
+    static S: OnceLock<Box<dyn c2pa::Signer + Send + Sync>> = OnceLock::new();
+    S.get_or_init(|| sdk::fixture_signer("ed25519")).as_ref()
+}
+
+fn reader_obs(r: c2pa::Result<Reader>, masked: bool) -> (String, String, String, Vec<String>) {
+    match r {
+        Ok(rd) => ("Ok".into(), if masked { gutil::canon_masked(&rd) } else { canon::canon_string(&rd) }, sdk::state_name(rd.validation_state()).into(), canon::codes(&rd).into_iter().filter(|c| c.contains("/failure")).collect()),
+        Err(e) => (gutil::err_class(&e), format!("{e:?}").chars().take(200).collect(), "-".into(), vec![]),
+    }
+}
+
+fn execute(op: &Op, sc: &Script) -> Obs {
+    match op.kind {
+        OpKind::Sign => {
+            let mut src = FaultStream::new(op.asset.data.clone(), sc.plan(0));
+            let mut dst = FaultStream::new(vec![], sc.plan(1));
+            let r = par::guard(|| {
+                let mut b = sdk::builder(sdk::ctx(), DEF);
+                b.sign(signer(), op.asset.mime, &mut src, &mut dst).map(|_| ())
+            });
+            let logs = vec![src.snapshot(), dst.snapshot()];
+            let out = dst.into_inner();
+            match r {
+                Err(p) => Obs { class: "PANIC".into(), detail: p, state: "-".into(), codes: vec![], logs, out_len: out.len() },
+                Ok(Err(e)) => Obs { class: gutil::err_class(&e), detail: format!("{e:?}").chars().take(200).collect(), state: "-".into(), codes: vec![], logs, out_len: out.len() },
+                Ok(Ok(())) => {
+                    // what did it write? judged by a clean reader over a plain cursor
+                    let (c, d, s, codes) = par::guard(|| reader_obs(sdk::read(sdk::ctx(), op.asset.mime, &out), true)).unwrap_or_else(|p| ("PANIC".into(), p, "-".into(), vec![]));
+                    let detail = if c == "Ok" { d } else { format!("output unreadable: {c} {d}") };
+                    Obs { class: "Ok".into(), detail, state: s, codes, logs, out_len: out.len() }
+                }
+            }
+        }
+        OpKind::Read | OpKind::ReadDetect => {
+            let s = FaultStream::new(op.signed.clone(), sc.plan(0));
+            let log = s.log();
+            let hint = if op.kind == OpKind::Read { op.asset.mime } else { "application/octet-stream" };
+            let r = par::guard(|| reader_obs(Reader::from_context(sdk::ctx()).with_stream(hint, s), false));
+            let logs = vec![log.lock().unwrap_or_else(|e| e.into_inner()).clone()];
+            match r {
+                Err(p) => Obs { class: "PANIC".into(), detail: p, state: "-".into(), codes: vec![], logs, out_len: 0 },
+                Ok((class, detail, state, codes)) => Obs { class, detail, state, codes, logs, out_len: 0 },
+            }
+        }
+        OpKind::Ingredient => {
+            let mut s = FaultStream::new(op.signed.clone(), sc.plan(0));
+            let r = par::guard(|| {
+                let mut b = Builder::from_context(sdk::ctx()).with_definition(DEF).unwrap_or_else(|e| kit::ev::machinery(format!("definition: {e:?}")));
+                match b.add_ingredient_from_stream(ING, op.asset.mime, &mut s) {
+                    Ok(ing) => {
+                        let mut codes: Vec<String> = vec![];
+                        if let Some(vr) = ing.validation_results() {
+                            collect_failures(&serde_json::to_value(vr).unwrap_or(Value::Null), false, &mut codes);
+                        }
+                        if let Some(vs) = ing.validation_status() {
+                            for x in vs {
+                                if format!("{:?}", x.kind()) == "Failure" {
+                                    codes.push(format!("/failure:{}", x.code()));
+                                }
+                            }
+                        }
+                        codes.sort();
+                        codes.dedup();
+                        let state = if ing.active_manifest().is_none() { "no-manifest" } else { ing.validation_results().map(|v| sdk::state_name(v.validation_state())).unwrap_or("no-results") };
+                        ("Ok".to_string(), gutil::canon_value(&*ing), state.to_string(), codes)
+                    }
+                    Err(e) => (gutil::err_class(&e), format!("{e:?}").chars().take(200).collect(), "-".into(), vec![]),
+                }
+            });
+            let logs = vec![s.snapshot()];
+            match r {
+                Err(p) => Obs { class: "PANIC".into(), detail: p, state: "-".into(), codes: vec![], logs, out_len: 0 },
+                Ok((class, detail, state, codes)) => Obs { class, detail, state, codes, logs, out_len: 0 },
+            }
+        }
+    }
+}
+
+fn collect_failures(v: &Value, in_failure: bool, out: &mut Vec<String>) {
+    match v {
+        Value::Object(m) => {
+            if in_failure {
+                if let Some(Value::String(c)) = m.get("code") {
+                    out.push(format!("/failure:{c}"));
+                }
+            }
+            for (k, x) in m {
+                collect_failures(x, in_failure || k == "failure", out);
+            }
+        }
+        Value::Array(a) => a.iter().for_each(|x| collect_failures(x, in_failure, out)),
+        _ => {}
+    }
+}
+
+fn stream_name(op: &Op, s: usize) -> &'static str {
+    match (op.kind, s) {
+        (OpKind::Sign, 0) => "src",
+        (OpKind::Sign, _) => "dst",
+        _ => "in",
+    }
+}
+
+/// Every single deviation that is possible after `after` in a run whose logs are `logs`.
+fn next_deviations(op: &Op, logs: &[Log], after: Option<&D>) -> Vec<D> {
+    let mut v = vec![];
+    for s in 0..op.streams() {
+        for k in 0..logs[s].calls {
+            if let Some(a) = after {
+                if a.stream == s && (k <= a.k || a.is_fail()) {
+                    continue;
+                }
+            }
+            v.push(D { stream: s, k, dev: "fail-sticky".into() });
+            if let Some(c) = logs[s].trace.get(k as usize) {
+                if matches!(c.kind, Kind::Read | Kind::Write) && c.moved.unwrap_or(0) >= 2 {
+                    v.push(D { stream: s, k, dev: "short1".into() });
+                }
+            }
+        }
+    }
+    v
+}
+
+fn exercised(sc: &Script, o: &Obs) -> bool {
+    sc.devs.iter().all(|d| {
+        let l = &o.logs[d.stream];
+        if d.is_fail() { l.first_failure.is_some() } else { l.calls > d.k }
+    })
+}
+
+/// Judge one run against the undisturbed one. Returns true when the scripted deviations were all reached.
+fn judge(run: &Run, op: &Op, base: &Obs, sc: &Script, o: &Obs) -> bool {
+    let fmt = op.asset.name;
+    let opn = op.kind.name();
+    let case = json!({"op": op.name(), "script": sc.json()});
+    let reached = exercised(sc, o);
+    let where_ = sc.devs.iter().map(|d| format!("{}:{}", stream_name(op, d.stream), d.dev)).collect::<Vec<_>>().join("+");
+    let how = match sc.chunk {
+        Some(n) => format!("max-transfer={n}"),
+        None => where_.clone(),
+    };
+    if o.class == "PANIC" {
+        run.outcome("panic");
+        let msg: String = o.detail.chars().take(70).collect();
+        LIM.violation(run, format!("panic op={opn} how={how} fmt={fmt} msg={msg}"), format!("{}: {} panics: {}", op.name(), sc.describe(), o.detail), case);
+        return reached;
+    }
+    if !sc.has_fail() {
+        // legitimate stream behaviour only: the result must be the undisturbed one
+        if o.class == "Ok" && o.detail == base.detail && o.state == base.state && o.out_len == base.out_len {
+            run.outcome(if sc.chunk.is_some() { "chunked: same result" } else { "short transfer: same result" });
+        } else {
+            let got = if o.class == "Ok" { format!("Ok({})", o.state) } else { o.class.clone() };
+            run.outcome("chunking changes result");
+            LIM.violation(run, 
+                format!("chunking-changes-result op={opn} got={got} fmt={fmt} how={}", if sc.chunk.is_some() { "uniform-max-transfer".to_string() } else { how.clone() }),
+                format!("{}: with {} (no error injected) the result is {got} [{}] instead of the unchunked Ok({})", op.name(), sc.describe(), first_diff(&base.detail, &o.detail), base.state),
+                case,
+            );
+        }
+        return reached;
+    }
+    if !reached {
+        run.outcome("failure point not reached");
+        return false;
+    }
+    if o.class != "Ok" {
+        run.outcome("failure: error returned");
+        return true;
+    }
+    // Ok after a sticky failure
+    let undelivered: Vec<usize> = match op.kind {
+        OpKind::Sign => (0..op.asset.data.len()).filter(|p| !o.logs[0].delivered.get(*p).copied().unwrap_or(false)).collect(),
+        _ => op.matter().iter().copied().filter(|p| !o.logs[0].delivered.get(*p).copied().unwrap_or(false)).collect(),
+    };
+    let same = o.detail == base.detail && o.state == base.state && o.out_len == base.out_len;
+    let new_codes: Vec<&String> = o.codes.iter().filter(|c| !base.codes.contains(c)).collect();
+    let code = new_codes.first().map(|s| s.rsplit(':').next().unwrap_or("").to_string()).unwrap_or_else(|| "-".into());
+    let delivery = if undelivered.is_empty() {
+        "every byte that matters had been delivered before the failure".to_string()
+    } else {
+        format!("{} byte(s) that matter were never delivered (first at offset {})", undelivered.len(), undelivered[0])
+    };
+    if op.kind == OpKind::Sign && (!same || !undelivered.is_empty()) {
+        run.outcome("sign Ok after a failure: output differs / source not read");
+        LIM.violation(run, 
+            format!("sign-ok-after-io-failure where={where_} readback={} code={code} fmt={fmt}", o.state),
+            format!("{}: {}; sign returns Ok; {delivery}; a clean read of what it wrote gives {} [{}]", op.name(), sc.describe(), o.state, first_diff(&base.detail, &o.detail)),
+            case,
+        );
+    } else if op.kind != OpKind::Sign && base.state != "Invalid" && o.state == "Invalid" {
+        run.outcome("I/O error hidden as a validation failure");
+        LIM.violation(run, 
+            format!("io-error-hidden-as-validation-failure op={opn} code={code} fmt={fmt}"),
+            format!("I/O error hidden as a validation failure: {}: {} (failing call kind '{}'); result Ok(Invalid) with new failure code(s) {:?} instead of Err; {delivery}", op.name(), sc.describe(), call_kind(o, sc), new_codes),
+            case,
+        );
+    } else if !undelivered.is_empty() {
+        run.outcome("Ok(not Invalid) despite undelivered data");
+        LIM.violation(run, 
+            format!("valid-despite-undelivered-data op={opn} state={} fmt={fmt}", o.state),
+            format!("{}: {}; the operation returns Ok({}) although {delivery}", op.name(), sc.describe(), o.state),
+            case,
+        );
+    } else if !same {
+        run.outcome("I/O error changes an Ok result");
+        LIM.violation(run, 
+            format!("io-error-changes-result op={opn} state={} fmt={fmt}", o.state),
+            format!("{}: {}; result Ok({}) differs from the undisturbed one [{}]", op.name(), sc.describe(), o.state, first_diff(&base.detail, &o.detail)),
+            case,
+        );
+    } else {
+        run.outcome("failure after complete delivery: undisturbed result");
+    }
+    true
+}
+
+fn call_kind(o: &Obs, sc: &Script) -> char {
+    sc.devs.iter().find(|d| d.is_fail()).and_then(|d| o.logs[d.stream].trace.get(d.k as usize)).map(|c| c.kind.letter()).unwrap_or('?')
+}
+
+fn first_diff(a: &str, b: &str) -> String {
+    if a == b {
+        return "same report".into();
+    }
+    let i = a.bytes().zip(b.bytes()).position(|(x, y)| x != y).unwrap_or(a.len().min(b.len()));
+    let s = i.saturating_sub(30);
+    let cut = |t: &str| t.chars().skip(s).take(90).collect::<String>();
+    format!("reports differ at {i}: …{}… vs …{}…", cut(a), cut(b))
+}
+
+fn build_ops(run: &Run) -> Vec<Op> {
+    let formats = if run.tier.is_thorough() { assets::all() } else { assets::base() };
+    let mut v = vec![];
+    for a in formats {
+        let signed = sdk::sign_simple(signer(), a.mime, &a.data, &[]);
+        match sdk::read(sdk::ctx(), a.mime, &signed) {
+            Ok(r) if sdk::state_name(r.validation_state()) != "Invalid" => {}
+            other => kit::ev::machinery(format!("C35 seed {} does not read back valid: {:?}", a.name, other.map(|r| r.validation_state()))),
+        }
+        let matter = std::sync::Arc::new(OnceLock::new());
+        for kind in [OpKind::Sign, OpKind::Read, OpKind::Ingredient, OpKind::ReadDetect] {
+            v.push(Op { kind, asset: a.clone(), signed: signed.clone(), matter: matter.clone() });
+        }
+    }
+    v
+}
+
+pub fn run(run: &Run, replay: Option<&Value>) {
+    run.rule(
+        "operations = {sign, read, read with a neutral format hint (detection from bytes), add_ingredient_from_stream} x kit formats. Every stream call of the SDK is a numbered choice point. \
+         Enumerated: uniform maximum transfer n in {1,2,3,7,64}; for EVERY call k of the undisturbed run a 1-byte short transfer (where >= 2 bytes would move) and a sticky I/O error; \
+         thorough adds every pair of deviations on the two smallest formats. non-trivial = runs whose scripted deviation was actually reached / actually shortened a transfer, distinct by (operation, script).",
+    );
+    run.assume("bytes that matter for a signed asset = positions whose single-byte alteration makes a clean read not Valid (exhaustive flips with plain cursors); for the source of sign = every byte");
+    run.assume("a sticky failure stands for a device that stays broken; one-shot errors are not enumerated");
+    run.assume("the injected error is io::ErrorKind::Other (not Interrupted, which std retries)");
+    let ops = build_ops(run);
+
+    if let Some(c) = replay {
+        let name = c["op"].as_str().unwrap_or("");
+        let op = ops.iter().find(|o| o.name() == name).unwrap_or_else(|| kit::ev::machinery("C35 replay: unknown op"));
+        let sc = Script::from_json(&c["script"]);
+        let base = execute(op, &Script::default());
+        let o = execute(op, &sc);
+        println!("replay {name} with [{}]", sc.describe());
+        println!("  undisturbed: {} state={} calls={:?}", base.class, base.state, base.logs.iter().map(|l| l.calls).collect::<Vec<_>>());
+        println!("  this run   : {} state={} codes={:?} calls={:?} first_failure={:?}", o.class, o.state, o.codes, o.logs.iter().map(|l| l.calls).collect::<Vec<_>>(), o.logs.iter().map(|l| l.first_failure).collect::<Vec<_>>());
+        if o.class != "Ok" {
+            println!("  error: {}", o.detail);
+        } else {
+            println!("  result vs undisturbed: {}", first_diff(&base.detail, &o.detail));
+            if std::env::var("VERIF_DEBUG").is_ok() {
+                println!("  undisturbed result: {}\n  this result: {}", base.detail, o.detail);
+            }
+        }
+        for d in &sc.devs {
+            if let Some(call) = o.logs[d.stream].trace.get(d.k as usize) {
+                println!("  call #{} on {}: {:?}", d.k, stream_name(op, d.stream), call);
+            }
+        }
+        run.eval();
+        judge(run, op, &base, &sc, &o);
+        return;
+    }
+
+    // ---- undisturbed runs (twice: own the nondeterminism) -----------------------------------------
+    let mut bases: Vec<Option<Obs>> = vec![];
+    let mut skipped = vec![];
+    for op in &ops {
+        let b1 = execute(op, &Script::default());
+        let b2 = execute(op, &Script::default());
+        run.evals(2);
+        let same_calls = b1.logs.iter().zip(&b2.logs).all(|(x, y)| x.calls == y.calls && x.kinds(usize::MAX) == y.kinds(usize::MAX));
+        if b1.class != b2.class || b1.detail != b2.detail || !same_calls {
+            kit::ev::machinery(format!("C35: undisturbed {} is not deterministic ({} vs {}; {})", op.name(), b1.class, b2.class, first_diff(&b1.detail, &b2.detail)));
+        }
+        if op.kind == OpKind::ReadDetect && (b1.class != "Ok" || b1.state == "Invalid") {
+            // formats the SDK cannot detect from their leading bytes are outside this operation's domain
+            skipped.push(op.name());
+            bases.push(None);
+            continue;
+        }
+        if b1.class != "Ok" || b1.state == "Invalid" {
+            kit::ev::machinery(format!("C35 seed: undisturbed {} gives {} {} {}", op.name(), b1.class, b1.state, b1.detail.chars().take(200).collect::<String>()));
+        }
+        bases.push(Some(b1));
+    }
+    run.extra("read_detect_not_applicable", json!(skipped));
+    let live: Vec<usize> = (0..ops.len()).filter(|i| bases[*i].is_some()).collect();
+    for i in live.iter().take(3) {
+        let b = bases[*i].as_ref().unwrap();
+        run.sample(json!({"op": ops[*i].name(), "undisturbed_calls_per_stream": b.logs.iter().map(|l| l.calls).collect::<Vec<_>>(), "first_calls": b.logs[0].kinds(40)}));
+    }
+    let calls_total: u64 = live.iter().map(|i| bases[*i].as_ref().unwrap().logs.iter().map(|l| l.calls).sum::<u64>()).sum();
+    run.extra("choice_points_undisturbed_total", json!(calls_total));
+
+    // ---- zero deviations: uniform chunking --------------------------------------------------------
+    let mut scripts: Vec<(usize, Script)> = vec![];
+    for i in &live {
+        for n in CHUNKS {
+            scripts.push((*i, Script { chunk: Some(n), devs: vec![] }));
+        }
+    }
+    run.space("uniform maximum transfer size n in {1,2,3,7,64} x operation x format", scripts.len() as u64, true);
+    let n_chunk = scripts.len();
+
+    // ---- bound 1 ------------------------------------------------------------------------------------
+    for i in &live {
+        let b = bases[*i].as_ref().unwrap();
+        for d in next_deviations(&ops[*i], &b.logs, None) {
+            scripts.push((*i, Script { chunk: None, devs: vec![d] }));
+        }
+    }
+    run.space("deviation bound 1: (operation, format, stream, call k, {1-byte short transfer, sticky I/O error}) for every call k of the undisturbed run", (scripts.len() - n_chunk) as u64, true);
+
+    let level1: Mutex<Vec<(usize, Script, Vec<Log>)>> = Mutex::new(vec![]);
+    let two_smallest: BTreeSet<&str> = {
+        let mut a: Vec<&Asset> = ops.iter().map(|o| &o.asset).collect();
+        a.sort_by_key(|a| a.data.len());
+        a.dedup_by_key(|a| a.name);
+        a.iter().take(2).map(|a| a.name).collect()
+    };
+    let want_level2 = run.tier.is_thorough();
+    par::for_each(&scripts, |(i, sc)| {
+        let op = &ops[*i];
+        let base = bases[*i].as_ref().unwrap();
+        let o = execute(op, sc);
+        run.eval();
+        let reached = judge(run, op, base, sc, &o);
+        if sc.chunk.is_some() {
+            if o.logs.iter().any(|l| l.shortened > 0) {
+                run.nontrivial(format!("{}|{}", op.name(), sc.describe()));
+            }
+            return;
+        }
+        if !reached {
+            kit::ev::machinery(format!("C35: {} diverged before the scripted deviation [{}] (undisturbed prefix not reproduced)", op.name(), sc.describe()));
+        }
+        run.nontrivial(format!("{}|{}", op.name(), sc.describe()));
+        if want_level2 && two_smallest.contains(op.asset.name) && op.kind != OpKind::ReadDetect {
+            level1.lock().unwrap().push((*i, sc.clone(), o.logs.clone()));
+        }
+    });
+
+    // ---- bound 2 (thorough; two smallest formats) -------------------------------------------------------
+    if want_level2 {
+        let l1 = level1.into_inner().unwrap();
+        let mut seen: BTreeSet<(usize, Vec<D>)> = BTreeSet::new();
+        let mut pairs: Vec<(usize, Script)> = vec![];
+        for (i, sc, logs) in &l1 {
+            let d1 = &sc.devs[0];
+            for d2 in next_deviations(&ops[*i], logs, Some(d1)) {
+                let mut set = vec![d1.clone(), d2];
+                set.sort();
+                if seen.insert((*i, set.clone())) {
+                    pairs.push((*i, Script { chunk: None, devs: set }));
+                }
+            }
+        }
+        run.space(&format!("deviation bound 2 on the two smallest formats {two_smallest:?}: every pair of deviations, the second taken from the run containing the first"), pairs.len() as u64, true);
+        par::for_each(&pairs, |(i, sc)| {
+            let op = &ops[*i];
+            let o = execute(op, sc);
+            run.eval();
+            if judge(run, op, bases[*i].as_ref().unwrap(), sc, &o) {
+                run.nontrivial(format!("{}|{}", op.name(), sc.describe()));
+            }
+        });
+        run.extra("deviation_bound_completed", json!(2));
+    } else {
+        run.extra("deviation_bound_completed", json!(1));
+    }
+    let computed: Vec<Value> = ops.iter().filter(|o| o.kind == OpKind::Read).filter_map(|o| o.matter.get().map(|m| json!({"asset": o.asset.name, "signed_len": o.signed.len(), "bytes_that_matter": m.len()}))).collect();
+    run.extra("bytes_that_matter_computed_for", json!(computed));
+    run.extra("violating_cases_by_key", LIM.counts());
 }
